@@ -44,6 +44,9 @@ func (x *g) genService(i int, used map[string]bool) {
 				// a header named differently from the attribute
 				he.Headers = append(he.Headers, spec.Loc{Attr: "message", Wire: "X-Svc-Err-Message"})
 				x.s.AddFeature("error-header", "inherited-error-header")
+			} else if x.chance(1, 3) {
+				he.Cookies = append(he.Cookies, spec.Loc{Attr: "id", Wire: "svc-err-id"})
+				x.s.AddFeature("error-cookie", "inherited-error-cookie")
 			}
 			sv.HTTPErrs = append(sv.HTTPErrs, he)
 		}
@@ -787,6 +790,10 @@ func (x *g) genHTTP(sv *spec.Service, m *spec.Method, idx int) {
 			case 1:
 				he.Body = "empty"
 				x.s.AddFeature("error-body-empty")
+			case 2:
+				// the error's id travels in a cookie whose name is not the attribute's
+				he.Cookies = append(he.Cookies, spec.Loc{Attr: "id", Wire: x.r.Pick("err-id", "lab.err", "E_ID")})
+				x.s.AddFeature("error-cookie")
 			}
 		}
 		m.HTTP.Errors = append(m.HTTP.Errors, he)
